@@ -329,6 +329,14 @@ func (g *Gen) instr(b *ssa.BasicBlock, in ssa.Instruction) {
 	case *ssa.RunDefers:
 		g.runDefers()
 	case *ssa.Return:
+		if g.parent != nil {
+			rt := inlineRet{guard: g.at(g.curBlk), state: copyState(g.cur)}
+			for _, x := range v.Results {
+				rt.results = append(rt.results, g.v(x))
+			}
+			g.inlRets = append(g.inlRets, rt)
+			return
+		}
 		g.ret(v)
 	case *ssa.If, *ssa.Jump:
 	case *ssa.Panic:
